@@ -334,10 +334,12 @@ class Struct(metaclass=MetaStruct):
                 field.ftype._to_buffer(buffer, foffset, fvalue, finfo)
 
     def _update(self, value):
-        # check if direct copy is possible
+        # direct copy only for structs of static size: the parts of a
+        # dynamic struct keep the space fixed at their creation, a value of
+        # the same total size can split it differently
         if (
             isinstance(value, self.__class__)
-            and value._size == self._size
+            and self.__class__._size is not None
             and not self._has_refs
         ):
             self._buffer.update_from_xbuffer(
